@@ -279,6 +279,15 @@ PROGRAMS = [
     ([(2, False)], [(4, False)],
      [("switch", IN(0), [((1,), [_set(0, 0, 4, 1)]), ((1,), [_set(0, 0, 4, 2)]), ((7,), [_set(0, 0, 4, 3)]),
                          ((), [_set(0, 0, 4, 4)]), ((3,), [_set(0, 0, 4, 5)])])]),
+    # never-matching cases (empty pattern list, not-representable pattern) in a switch that also has don't-care patterns
+    # (the simulator lowers such a switch to an if/elif chain instead of a match statement), before and after the default
+    ([(3, False)], [(4, False)],
+     [("switch", IN(0), [(("1--",), [_set(0, 0, 4, 1)]), ((), [_set(0, 0, 4, 2)]), ((2,), [_set(0, 0, 4, 3)]),
+                         ((9,), [_set(0, 0, 4, 4)]), (("0-1",), [_set(0, 0, 4, 5)]), (None, [_set(0, 0, 4, 6)])])]),
+    ([(3, False)], [(4, False)],
+     [("switch", IN(0), [((9,), [_set(0, 0, 4, 4)]), (("-1-",), [_set(0, 0, 4, 1)]), (None, [_set(0, 0, 4, 6)]), ((), [_set(0, 0, 4, 2)])])]),
+    ([(2, True)], [(4, False)],
+     [("switch", IN(0), [((), [_set(0, 0, 4, 2)]), (("1-",), [_set(0, 0, 4, 1)]), ((1,), [_set(0, 0, 4, 3)])])]),
     # zero-width test
     ([(0, False)], [(4, False)],
      [("switch", IN(0), [((0,), [_set(0, 0, 4, 1)]), (None, [_set(0, 0, 4, 2)])])]),
